@@ -346,6 +346,18 @@ func (c *vclient) collect(s *vsession, marker string, timeout time.Duration) ([]
 	return out, found
 }
 
+// collectFrom reads up to n messages after lastseen (fewer if nothing more arrives in time).
+func (c *vclient) collectFrom(s *vsession, lastseen string, n int, timeout time.Duration) ([]vmsg, bool) {
+	ctx, cancel := context.WithTimeout(context.Background(), timeout)
+	defer cancel()
+	var out []vmsg
+	c.readMessages(ctx, s, lastseen, func(m vmsg) bool {
+		out = append(out, m)
+		return len(out) >= n
+	})
+	return out, len(out) >= n
+}
+
 func (c *vclient) private(method, path string, password string, hdr map[string]string, body []byte) (int, []byte, http.Header, error) {
 	req, err := http.NewRequest(method, c.base+path, bytes.NewReader(body))
 	if err != nil {
